@@ -48,16 +48,27 @@ class C05(Check):
             if any(s[0] in ('ev', 'alw', 'until', 'untilt') for s in fml.subformulas(f)):
                 continue
             items.append((f, nv))
+        # operands that start at different times: one signal has whole pieces before the other one begins
+        D = ('pred', 'geq', ('a2', 'sub', ('var', 1), ('var', 0)), ('const', 0))
+        for (f, sg) in [(D, [[[22, 0], [30, 0]], [[4, 0], [8, 0]]]), (D, [[[4, 1], [8, 2]], [[22, 0], [30, 5]]]),
+                        (('and', P, Q), [[[12, 3], [14, 0], [20, 2]], [[0, 1], [4, 5], [8, 0]]]),
+                        (('since', P, Q), [[[0, 3], [2, 0]], [[6, 1], [10, 5], [12, 0]]])]:
+            ch = [{str(i): [(0, len(sg[i]))] for i in (0, 1)}, {str(i): [(j, j + 1) for j in range(len(sg[i]) - 1)] + [(len(sg[i]) - 1, len(sg[i]))] for i in (0, 1)}]
+            ch[1] = {k: v[:2] if len(v) > 2 and False else v for k, v in ch[1].items()}
+            k = min(len(v) for v in ch[1].values())
+            ch[1] = {kk: v[:k - 1] + [(v[k - 1][0], v[-1][1])] for kk, v in ch[1].items()}
+            cases.append({'f': f, 'nv': 2, 'sigs': sg, 'chunkings': ch, 'past': False, 'n': 3})
         for (f, nv) in items:
             if fml.size(f) > 20 or not fml.fvars(f):
                 continue
             nv = need_vars(f, nv)
             used = fml.fvars(f)
             sigs = []
+            late = rng.random() < 0.25
             for i in range(nv):
-                s = dense.gen_signal(rng, maxn=7, start0=True)
+                s = dense.gen_signal(rng, maxn=7, start0=not (late and rng.random() < 0.6))
                 while len(s) < 2:
-                    s = dense.gen_signal(rng, maxn=7, start0=True)
+                    s = dense.gen_signal(rng, maxn=7, start0=not (late and rng.random() < 0.6))
                 sigs.append(s)
             chunkings = []
             if len(used) == 1 and len(sigs[used[0]]) <= 6:
